@@ -6,6 +6,8 @@ import os
 import sys
 import traceback
 
+from . import limbs
+
 from . import common as C
 
 DISPATCH = {
@@ -47,6 +49,17 @@ def main():
     mod, fn = DISPATCH[a.pid]
     try:
         rc = getattr(importlib.import_module(mod), fn)(a.pid, a.tier)
+    except limbs.NonFinite:
+        # every encoded number is an observation of the implementation (the generated inputs are finite by construction): a
+        # quantity that is nan or inf where the specification expects a number violates whichever clause mentions it
+        tb = traceback.format_exc()
+        rdir = os.path.join(os.environ.get("VERIF_EVIDENCE_DIR") or os.path.join(os.path.dirname(os.path.dirname(os.path.abspath(__file__))), "evidence"), "replay")
+        os.makedirs(rdir, exist_ok=True)
+        path = os.path.join(rdir, "%s_nonfinite.json" % a.pid)
+        json.dump(dict(property=a.pid, key="FiniteQuantities", what="an observed quantity is not a finite number", replay=dict(traceback=tb[-3000:])),
+                  open(path, "w"), indent=1)
+        print("VIOLATION property=%s replay=%s  # FiniteQuantities: an observed quantity is nan or inf" % (a.pid, path))
+        return 1
     except Exception:
         traceback.print_exc()
         print("MACHINERY-FAILURE property=%s uncaught exception" % a.pid, file=sys.stderr)
